@@ -53,7 +53,15 @@ def _calls(path: Path, cls: str):
 
 
 def classify(parse_f, stream_f):
-    """probe one STREAMER_FUNCTIONS entry"""
+    """probe one STREAMER_FUNCTIONS entry; `.other` when its behaviour matches no known kind exactly (the model then
+    refuses the letter, the table lemmas fail, and the correspondence check finds the input)"""
+    try:
+        return _classify(parse_f, stream_f)
+    except (AssertionError, Exception):  # noqa: BLE001
+        return ".other"
+
+
+def _classify(parse_f, stream_f):
     def out(v):
         f = io.BytesIO()
         stream_f(f, v)
@@ -105,7 +113,7 @@ def classify(parse_f, stream_f):
         assert out(0x0102) == b"\x00" * (k - 2) + b"\x01\x02"
         assert parse_f(io.BytesIO(bytes(range(1, k + 1)) + b"zz")) == int.from_bytes(bytes(range(1, k + 1)), "big")
         return ".uintBE %d" % k
-    raise SystemExit("gen_formats: cannot classify a STREAMER_FUNCTIONS entry")
+    return ".other"
 
 
 def generate():
